@@ -66,7 +66,7 @@ P("C04", "proof", "Lean 4 theorems (acceptance rule, first-offender error, appen
   "(checked_error_first). For Unix the result's components are exactly the base's followed by the argument's minus a "
   "leading `.`, and the added components never climb (unix_checked_keeps_base, unix_checked_empty_base). "
   "For Windows the same keeps-base statement is proved for every non-empty prefix-free base, i.e. one that does not "
-  "start with two separators or `X:` (win_checked_keeps_base_pf). For Windows bases WITH a complete non-verbatim prefix (disk, device namespace, UNC with share) the keeps-base statement is proved too, the implicit root of a bare device-namespace / UNC prefix written out, and the result is again well-formed (C04b.win_checked_keeps_base_prefixed); an accepted argument never starts like a prefix or with a separator (C04b.accepted_prefix_free).",
+  "start with two separators or `X:` (win_checked_keeps_base_pf). For Windows bases WITH a complete non-verbatim prefix (disk, device namespace, UNC with share) the keeps-base statement is proved too, the implicit root of a bare device-namespace / UNC prefix written out, and the result is again well-formed (C04b.win_checked_keeps_base_prefixed); an accepted argument never starts like a prefix or with a separator (C04b.accepted_prefix_free). For bases with a complete VERBATIM prefix (followed by nothing or a separator) a successful checked push yields the base's components followed by the names that survive the argument's own `..` cancellations, root after the prefix written out, same prefix (C08c.win_checked_keeps_base_verbatim): nothing of the base is consumed.",
   "Partial: the keeps-base clause for Windows bases WITH a prefix is not proved — it is false for bases that start "
   "with two separators, known finding K3 (proved as windows_K3_witness) — the oracle decides it on every run with K3 "
   "set aside by a narrow class predicate. 'Failure leaves the base unchanged' is by construction in the model (no buffer is "
@@ -75,8 +75,9 @@ P("C04", "proof", "Lean 4 theorems (acceptance rule, first-offender error, appen
   theorems=["TP.C04.neverClimbs_iff_counts", "TP.C04.scan_none_iff", "TP.C04.checked_accepts_iff", "TP.C04.checked_ok_eq_push",
             "TP.C04.checked_error_first", "TP.C04.unix_checked_keeps_base", "TP.C04.unix_checked_empty_base", "TP.C04.windows_K3_witness",
             "TP.unix_push_comps", "TP.C16b.win_checked_keeps_base_pf",
-            "TP.C04b.accepted_prefix_free", "TP.C04b.win_checked_keeps_base_prefixed", "TP.Win.win_push_comps_prefixed"],
-  modules=["TypedPathVerif.Lemmas.Append", "TypedPathVerif.Props.C16b", "TypedPathVerif.Props.C04b"],
+            "TP.C04b.accepted_prefix_free", "TP.C04b.win_checked_keeps_base_prefixed", "TP.Win.win_push_comps_prefixed",
+            "TP.C08c.win_checked_keeps_base_verbatim", "TP.C08c.fold_neverClimbs"],
+  modules=["TypedPathVerif.Lemmas.Append", "TypedPathVerif.Props.C16b", "TypedPathVerif.Props.C04b", "TypedPathVerif.Props.C08c"],
   rule=NONTRIV + "non-trivial = argument has >= 2 components or is rejected", design_ref="§5 C04")
 
 P("C05", "proof", "Lean 4 theorems (lexicographic total-order laws, eq iff components, the hash index loop = its component-level description) + model/code correspondence incl. exact hasher input",
@@ -140,15 +141,16 @@ P("C08", "proof", "Lean 4 theorems (model push = documented rule table, byte-exa
   "prefix); under a verbatim prefix the result is the re-rendering of a's components followed by b's with `.` dropped, "
   "`..` cancelling only a preceding normal component and a root resetting to the prefix (win_push_verbatim, "
   "verbatimFold_no_cur_added); an empty b changes nothing (win_push_empty); sequences of pushes follow the rules "
-  "(pushes_follow_rules). Component clause: for a prefix-free non-empty base and for a base with a complete non-verbatim prefix, joining a non-empty relative prefix-free argument yields the base's components followed by the argument's minus a leading `.` — directly after a bare `X:` the argument's components unchanged, after a bare device-namespace / UNC prefix the implicit root first (C16b.win_push_comps_pf, Win.win_push_comps_prefixed).",
+  "(pushes_follow_rules). Component clause: for a prefix-free non-empty base and for a base with a complete non-verbatim prefix, joining a non-empty relative prefix-free argument yields the base's components followed by the argument's minus a leading `.` — directly after a bare `X:` the argument's components unchanged, after a bare device-namespace / UNC prefix the implicit root first (C16b.win_push_comps_pf, Win.win_push_comps_prefixed). For a base with a complete verbatim prefix (followed by nothing or a separator) the rendered result re-parses to exactly the documented scan of the base's and the argument's components, root written out, same prefix (C08c.win_push_comps_verbatim via Win.render_parse); the scan never removes prefix or root and adds no `.` (fold_keeps_prefix_root, verbatimFold_no_cur_added).",
   "Partial: the component-level clause (the result's components are a's followed by b's) is not proved for Windows; it "
   "is false at known finding K3 (win_push_K3_witness) and is decided by the oracle with K3 set aside by a narrow class "
   "predicate. That the rendering under a verbatim prefix re-parses to the folded components is likewise by oracle. "
   "Model=code by differential testing; the harness has an independent Rust version of the rule table.",
   theorems=["TP.C08.win_push_bytes", "TP.C08.win_push_verbatim", "TP.C08.verbatimFold_no_cur_added", "TP.C08.win_push_empty",
             "TP.C08.pushes_follow_rules", "TP.C08.win_push_K3_witness", "TP.C08.wPrefix_eq", "TP.C08.wIsOnlyDisk_eq", "TP.C08.hasRoot_no_prefix",
-            "TP.Win.win_push_comps_prefixed", "TP.C16b.win_push_comps_pf", "TP.C12c.push_name"],
-  modules=["TypedPathVerif.Lemmas.WinAppend", "TypedPathVerif.Props.C12c"],
+            "TP.Win.win_push_comps_prefixed", "TP.C16b.win_push_comps_pf", "TP.C12c.push_name",
+            "TP.C08c.win_push_comps_verbatim", "TP.C08c.fold_keeps_prefix_root", "TP.C08c.fold_vshape", "TP.Win.render_parse"],
+  modules=["TypedPathVerif.Lemmas.WinAppend", "TypedPathVerif.Props.C12c", "TypedPathVerif.Props.C08c", "TypedPathVerif.Lemmas.WinVerbatim"],
   rule=NONTRIV + "bases x arguments; non-trivial = non-empty argument", design_ref="§5 C08")
 
 P("C09", "proof", "Lean 4 theorems (law B of the back parser, byte-prefix lemma, law R incl. stability of every complete Windows prefix under truncation, ancestors chain with fuel adequacy) + model/code correspondence",
